@@ -1,5 +1,6 @@
 """R30 CLI-FLOW (C19, C15) and R13d YEAR-KIND (C17)."""
 import ast
+import re
 
 from ..fdai import Engine, freeze, thaw
 from ..fold import NotConst
@@ -236,6 +237,35 @@ def r30_cli_flow(ctx):
               "unconditionally before building its parsers (statement "
               "indices: set=%s parsers=%s, env fallback=%s)" % (
                   idx_set, idx_parser, env_ok), P + ("C15",))
+    # explicit options win over the environment variables
+    rule_env = "R30.env-precedence"
+    for n in walk_no_nested(init.node):
+        if not (isinstance(n, ast.Call) and U(n.func) in ("os.getenv",
+                                                          "os.environ.get")):
+            continue
+        dflt = [U(a) for a in n.args[1:]] + [U(k.value) for k in n.keywords]
+        guards = []
+        child = n
+        for a in ancestors(n):
+            if isinstance(a, ast.If) and any(
+                    child is x or any(child is y for y in ast.walk(x))
+                    for x in a.body):
+                guards.append(U(a.test))
+            child = a
+        params = set(init.call_params)
+        guarded = any(re.fullmatch(r"(not (\w+))|((\w+) is None)", g) and
+                      (set(re.findall(r"\w+", g)) & params) for g in guards)
+        bad_default = [d for d in dflt if d in params]
+        rep.check(guarded and not bad_default, rule_env,
+                  ctx.fkey(init, None, "getenv:" + U(n.args[0])),
+                  init.loc(n),
+                  "%s is consulted only when the corresponding option was "
+                  "not given" % U(n.args[0]),
+                  "DateTimeOperator.__init__ reads %s %s: the environment "
+                  "variable then overrides an explicitly given option" % (
+                      U(n.args[0]), "with the option as mere default (%s)" %
+                      bad_default if bad_default else "unconditionally"),
+                  P + ("C15",))
     sm = oper.methods["set_calendar_mode"]
     rep.check("data.Calendar.set_mode" in ctx.res.callees(sm.qual), rule,
               ctx.fkey(sm, None, "reaches-set-mode"), sm.loc(),
